@@ -138,7 +138,7 @@ V("discard after the directory skip (suite-blind)", "C03", C, """            fil
                 # TODO: find new directories here
                 continue
 
-            for hash_list in existing_history.hash_lists:
+            for hash_list in history.hash_lists:
                 for media_hash in hash_list.media_hashes:
                     if media_hash.path != history_relative_path:
                         continue
@@ -153,7 +153,7 @@ V("discard after the directory skip (suite-blind)", "C03", C, """            fil
                 continue
             not_found_paths.discard(file_path)
 
-            for hash_list in existing_history.hash_lists:
+            for hash_list in history.hash_lists:
                 for media_hash in hash_list.media_hashes:
                     if media_hash.path != history_relative_path:
                         continue
@@ -701,7 +701,7 @@ V("fix 11ce657 undone (verify): previous path searched in the root history's gen
                     history_relative_path = media_hash.previous_path or history_relative_path
                     break
 
-            if single_file""", """            for hash_list in existing_history.hash_lists:
+            if single_file""", """            for hash_list in history.hash_lists:
                 for media_hash in hash_list.media_hashes:
                     if media_hash.path != history_relative_path:
                         continue
